@@ -87,6 +87,24 @@ def o2(ctx):
             who = strip_role(b.role_of_operand(c.args[1]))
             conds = C.conditions_at(b, c.bb)
             g = any(cond[0] == "ne" and any(strip_role(x) == ("call", "slots", "types::AppliedId", [who], strip_role(x)[4]) if isinstance(strip_role(x), tuple) and strip_role(x)[0] == "call" and strip_role(x)[1] == "slots" else False for x in (cond[1], cond[2])) for e, cond in conds)
+            if not g:
+                # the two tests merged into `if shrink_l || r.slots() != cap { if shrink_l {..l..} else {..r..} }`: the call is under
+                # "the other operand's slots == cap" and every path to it passed "some operand's slots != cap"
+                def is_slots_of(x, p_):
+                    x = strip_role(x)
+                    return isinstance(x, tuple) and x[0] == "call" and x[1] == "slots" and x[3] and strip_role(x[3][0]) == ("param", p_)
+                others = [p_ for p_ in aps if ("param", p_) != who]
+                other_eq = any(cond[0] == "eq" and len(cond) == 3 and any(is_slots_of(x, o) for x in (cond[1], cond[2]) for o in others) for e, cond in conds)
+                ne_edges = [e for e, cond in C.all_cond_edges(b) if cond[0] == "ne" and len(cond) == 3 and any(is_slots_of(x, p_) for x in (cond[1], cond[2]) for p_ in aps)]
+                # conditions stored in a bool local first (`let shrink_l = l.slots() != cap;`) appear as a test of that local
+                for e, cond in C.all_cond_edges(b):
+                    if cond[0] == "true" and len(cond) > 1:
+                        r_ = strip_role(cond[1])
+                        if isinstance(r_, tuple) and r_[0] == "call" and r_[1] == "ne" and any(is_slots_of(x, p_) for x in r_[3] for p_ in aps):
+                            ne_edges.append(e)
+                other_false = any(cond[0] == "false" and len(cond) > 1 and isinstance(strip_role(cond[1]), tuple) and strip_role(cond[1])[0] == "call" and strip_role(cond[1])[1] == "ne"
+                                  and any(is_slots_of(x, o) for x in strip_role(cond[1])[3] for o in others) for e, cond in conds)
+                g = (other_eq or other_false) and bool(ne_edges) and b.must_pass([0], {c.bb}, ne_edges)
             ctx.check(g, "shrink-guard:%s:%s" % (C.fkey(b), who[1] if who[0] == "param" else "?"), "shrinking %s is guarded by %s.slots() != cap" % (role_str(who), role_str(who)),
                       "the shrink of %s is not guarded by its own slots() != cap" % role_str(who), where_of(b, c.bb))
             # retried afterwards with the original operands
